@@ -396,6 +396,7 @@ func CheckC02(run *evid.Run) {
 		o2.Extra = i%4 == 3 // rebuilds from storage (with reused option values in half of the histories), identity changes
 		o2.Hostile = !o2.Extra
 		o2.Truncated = i%5 == 4 // merges from length-limited loads: logs with gaps (an entry's predecessor is not held)
+		o2.BigFanout = true
 		h := hx.Gen(run.Seed, i, o2)
 		x := hx.NewExec(h)
 		var tr histTrack
